@@ -422,6 +422,10 @@ def handle (line : String) : String :=
         let b (x : Bool) : String := if x then "1" else "0"
         s!"ok {maxSize m} exact={encMax m} listed={b m.listed} pop={b (m.populated && m.optionsPopulated)} wf={b m.wf}"
       | none => "bad-op"
+    | "maxprobe", _ =>
+      -- a type of the harness's opportunistic catalogue (no MaxSize impl in the modelled crate): decided by the
+      -- harness oracle alone if the crate ever declares a maximum for it
+      "ok"
     | "fix", [.atom order, .atom ty, .atom x] =>
       match intOfName ty, parseInt x with
       | some (signed, w), some x =>
